@@ -332,7 +332,7 @@ TB_DELAY = 2
 def tb3_reference(scripts, sweep, snapshot=False):
     """sweep=True: first to last, repeated; sweep=False: always the lowest-index non-waiting one. snapshot=True is NOT a legal reading
     (a testbench woken during a sweep waits for the next one); it only measures how many cases can tell the difference."""
-    val = {"x": 0, "k": 0}
+    val = {"x": 0, "k": 0, "g": 0}
     pc = [0] * len(scripts)            # 0: before wait, 1: waiting / before act, 2: done
     waiting = [None] * len(scripts)    # None (non-waiting) | ("delay", t) | ("chg", name)
     log = []
@@ -349,11 +349,22 @@ def tb3_reference(scripts, sweep, snapshot=False):
                 if w in ("chg_x", "chg_k"):
                     waiting[i] = ("chg", w[-1])
                     return
+                if w == "pos_g0":
+                    waiting[i] = ("pos_g0",)     # rising edge of bit 0 of the 2-bit signal g: the other bit may change freely
+                    return
             elif pc[i] == 1:
                 pc[i] = 2
                 a = scripts[i][1]
                 if a == "get":
                     log.append((i, "get", now, val["x"], val["k"]))
+                elif a.startswith("setg"):
+                    old, new = val["g"], int(a[4:])
+                    val["g"] = new
+                    if not (old & 1) and (new & 1):
+                        for j, wj in enumerate(waiting):
+                            if wj == ("pos_g0",):
+                                waiting[j] = None
+                    log.append((i, a, now, val["x"], val["k"]))
                 else:
                     name = a[-1]
                     if val[name] != 1:
@@ -394,7 +405,9 @@ def tb3_real(scripts):
     x = Signal(name="x")
     k = Signal(name="k")
     z = Signal(name="z")
-    m.d.comb += z.eq(x ^ k)
+    g = Signal(2, name="g")
+    z2 = Signal(2, name="z2")
+    m.d.comb += [z.eq(x ^ k), z2.eq(g)]
     log = []
     sig = {"x": x, "k": k}
 
@@ -406,8 +419,13 @@ def tb3_real(scripts):
                 await ctx.delay(period(TB_DELAY))
             elif w in ("chg_x", "chg_k"):
                 await ctx.changed(sig[w[-1]])
+            elif w == "pos_g0":
+                await ctx.posedge(g[0])
             if a == "get":
                 log.append((i, "get", t(), ctx.get(x), ctx.get(k)))
+            elif a.startswith("setg"):
+                ctx.set(g, int(a[4:]))
+                log.append((i, a, t(), ctx.get(x), ctx.get(k)))
             else:
                 ctx.set(sig[a[-1]], 1)
                 log.append((i, a, t(), ctx.get(x), ctx.get(k)))
@@ -483,7 +501,11 @@ def run(rep):
     if rep.quick:
         tasks = rotate(tasks, rep.seed)
     scripts1 = list(itertools.product(TB_WAITS, TB_ACTS))
-    tb3 = list(itertools.product(scripts1, repeat=3)) + list(itertools.product(scripts1, repeat=4))
+    # edge triggers on one bit of a multi-bit signal: the 3-testbench cases in which at least one testbench waits for posedge(g[0]) and
+    # at least one writes g (1, 2 or 3)
+    scripts_g = list(itertools.product(TB_WAITS + ("pos_g0",), TB_ACTS + ("setg1", "setg2", "setg3")))
+    tb_g = [tr for tr in itertools.product(scripts_g, repeat=3) if any(sc[0] == "pos_g0" for sc in tr) and any(sc[1].startswith("setg") for sc in tr)]
+    tb3 = list(itertools.product(scripts1, repeat=3)) + list(itertools.product(scripts1, repeat=4)) + tb_g
     for part in pmap(run_tb3, chunks(tb3, 702), rep.procs):
         rep.merge(part)
     rep.require(rep.cov.get("tb_order_unique_reading", 0) > 500 and rep.cov.get("tb_order_wakeups_between", 0) > 10, "testbench-order cases with one legal log, and cases that tell in-order execution from deferred execution")
@@ -500,7 +522,9 @@ def run(rep):
                "give the same observations; the initial value of ca rotates over 0..2 so that the comb-replacement process has to act at time 0; "
                "tb_order_cases = every choice of 3 and of 4 testbenches from 12 (wait, act) scripts over two testbench-only signals, observed log "
                "compared with the logs of the two readings of 'non-waiting testbenches execute in the order added' (tb_order_unique_reading: both agree; "
-               "tb_order_wakeups_between: cases in which deferring a testbench woken during a sweep would change the log)")
+               "tb_order_wakeups_between: cases in which deferring a testbench woken during a sweep would change the log); plus every 3-testbench "
+               "case over the alphabet extended with posedge(g[0]) on a 2-bit testbench-only signal g and writes of 1, 2, 3 to it (an edge trigger "
+               "on one bit of a multi-bit signal fires only when that bit rises)")
     rep.setcov("exhaustive", rep.cov.get("capped", 0) == 0)
     rep.require(rep.cov.get("scenarios_with_real_choice", 0) > rep.cov.get("scenarios", 0) // 2, "choice points with >= 2 alternatives were observed")
     rep.require(rep.cov.get("schedules", 0) > 2 * rep.cov.get("scenarios", 1), "more than one schedule per scenario executed")
